@@ -41,7 +41,8 @@ def map_guards(pc: List[T.Term]) -> List[Tuple[T.Term, bool]]:
     out = []
     for g in flat(pc):
         if isinstance(g, tuple) and g[0] == "cmp" and g[1] in ("in", "not in") and g[3] == KEYS:
-            out.append((g[2], g[1] == "in"))
+            if (g[2], g[1] == "in") not in out:   # the same fact established twice is one fact
+                out.append((g[2], g[1] == "in"))
     return out
 
 
